@@ -189,9 +189,19 @@ def sched_alphabet(nparts, tier):
     return out
 
 
-def explore_config(make_kernel, args, cloudf, sch, w, cs, ps, expect, expect_raise=False, cap=None):
+def explore_config(make_kernel, args, cloudf, sch, w, cs, ps, expect, expect_raise=False, cap=None, aftermath=None):
+    """aftermath: the digest a cloud-free batch must give; when the explored batch raised, the SAME kernel object is then
+    called once more, synchronously and with no cloud callback, and must give exactly that (nothing the failed batch
+    installed on the kernel - its cloud model, say - may linger)"""
+
     def run(ch):
-        return run_batch(make_kernel(), args, cloudf, sch, w, cs, ps, ch)
+        k = make_kernel()
+        o = run_batch(k, args, cloudf, sch, w, cs, ps, ch)
+        if aftermath is not None and o.startswith("raised"):
+            o2 = run_batch(k, args, None, "synchronous", 1, 1, ps, None)
+            if o2 != aftermath:
+                return "after the failed batch the same kernel, cloud-free: " + str(o2)[:60]
+        return o
 
     n, obs, capped = schedule.explore_all(run, max_execs=cap)
     bad = []
@@ -376,7 +386,7 @@ def _real_job(a):
         # a failing cloud lookup at event `pos` with exception type `ft`, through the REAL kernel's run()
         _, pos, ft = ck.split(":")
         cl = SiteCloud(fail_lat=float(args[3][int(pos)]), fault=int(ft))
-        nex, outcomes, bad, capped = explore_config(real_kernel, args, cl, sch, w, cs, ps, None, expect_raise=True, cap=cap)
+        nex, outcomes, bad, capped = explore_config(real_kernel, args, cl, sch, w, cs, ps, None, expect_raise=True, cap=cap, aftermath=sequential(real_kernel, args, "none"))
         return dict(ck=ck, ps=ps, sch=sch, w=w, cs=cs, nex=nex, outcomes=len(outcomes), bad=bad[:3], capped=capped, exp="the batch call raises", nparts=math.ceil(NREAL / ps))
     ck0, _, kv = ck.partition("@")
     exp = sequential(KERNELS[kv], args, ck0)
@@ -556,7 +566,12 @@ def replay(case):
             _, pos, ft = case["cloud"].split(":")
             cl = SiteCloud(fail_lat=float(args[3][int(pos)]), fault=int(ft))
             ch = schedule.Chooser(case["choices"])
-            o = run_batch(real_kernel(), args, cl, case["sch"], case["w"], case["cs"], case["ps"], ch)
+            k = real_kernel()
+            o = run_batch(k, args, cl, case["sch"], case["w"], case["cs"], case["ps"], ch)
+            if o.startswith("raised"):
+                o2 = run_batch(k, args, None, "synchronous", 1, 1, case["ps"], None)
+                if o2 != sequential(real_kernel, args, "none"):
+                    return [("failure_surfaces_as_error", "after the failed batch the same kernel, cloud-free, gives the cloud-free result", str(o2)[:60])]
             return [] if o.startswith("raised") else [("failure_surfaces_as_error", "the batch call raises", o)]
         ck0, _, kv = str(case["cloud"]).partition("@")
         cl = cloud(ck0)
